@@ -276,3 +276,16 @@ def chunk_len(r, avail, style):
 def buf_kind(r):
     k = r.choice(["bytes", "bytes", "bytearray", "memoryview"])
     return k, (k != "bytes" and r.random() < 0.7)
+
+
+def wire_style(r):
+    """Encoding style of a byzantine (foreign, conforming) peer: minimal lengths, AD-like 4-octet
+    lengths on constructed values, or long forms everywhere."""
+    x = r.random()
+    if x < 0.6:
+        return None
+    if x < 0.85:
+        return [4, None]
+    if x < 0.95:
+        return [r.choice([1, 2, 3]), r.choice([None, 1, 2])]
+    return [4, 4]
